@@ -94,10 +94,10 @@ theorem freeConnOf_facts (w : W) (o : Oid) (id client : Nat) (inv : Inv w) (hio 
         hf, hi1, hl1, rfl, rfl, rfl⟩
     · exact ⟨inv1, hf, hi1, hl1, rfl, rfl, rfl⟩
 
-theorem removeInteractive_step (rh : HookFn) (hrh : HookOK rh) (w : W) (o : Oid) (d : Bool) :
-    Step w (removeInteractive rh w o d) := by
+theorem removeInteractiveBody_step (rh : HookFn) (hrh : HookOK rh) (w : W) (o : Oid) (d : Bool) :
+    Step w (removeInteractiveBody rh w o d) := by
   intro inv
-  unfold removeInteractive
+  unfold removeInteractiveBody
   cases hio : w.inter o with
   | none => exact ⟨inv, Rel.refl w⟩
   | some id =>
@@ -158,6 +158,13 @@ theorem removeInteractive_step (rh : HookFn) (hrh : HookOK rh) (w : W) (o : Oid)
         · rw [l3, r2.ulen, r1.ulen]
         · rw [m3, r2.mode, r1.mode]
         · rw [x3, r2.ctx, r1.ctx]
+
+theorem removeInteractive_step (rh : HookFn) (hrh : HookOK rh) (w : W) (o : Oid) (d : Bool) :
+    Step w (removeInteractive rh w o d) := by
+  unfold removeInteractive
+  split
+  · exact Step.trans (removeInteractiveBody_step rh hrh w o d) (clearSnoopers_step _ o)
+  · exact removeInteractiveBody_step rh hrh w o d
 
 theorem destructObject_step (rh : HookFn) (hrh : HookOK rh) (w : W) (o : Oid) :
     Step w (destructObject rh w o) := by
@@ -230,6 +237,9 @@ theorem runOps_step (rh : HookFn) (hrh : HookOK rh) (self : Oid) :
       show Step w (runOps rh self rest _).1
       refine Step.trans ?_ (ih _)
       exact Same.step ⟨rfl, rfl, rfl, rfl, rfl, rfl, rfl, rfl, rfl, by trx⟩
+    | snoop t =>
+      show Step w (runOps rh self rest (setSnoop (emit w _) self t)).1
+      exact Step.trans (Step.trans (emit_same _ _).step (setSnoop_step _ _ _)) (ih _)
     | it tag =>
       show Step w (runOps rh self rest (setInputTo (emit w _) self tag)).1
       exact Step.trans (Step.trans (emit_same _ _).step (setInputTo_step _ _ _)) (ih _)
